@@ -628,4 +628,223 @@ Section WithParseIP.
     rewrite Hhp in Hhp'. inversion Hhp'; subst hp'. destruct r; simpl in *; auto.
   Qed.
 
+  (* ---- the cache ends holding one of the certificates handed out ---- *)
+
+  Definition for_host (hps : list str) (i : nat) (h : str) : Prop :=
+    exists hp port, nth_error hps i = Some hp /\ split_host_port hp = Some (h, port).
+
+  Definition pending_pc (h : str) (p : pc) : Prop :=
+    p = PDelete h \/ p = PCreate h \/ exists c, p = PSet h c.
+
+  Definition pending (st : lstate) (h : str) : Prop :=
+    exists i p, nth_error (l_threads st) i = Some p /\ pending_pc h p.
+
+  (* provenance of every cached certificate *)
+  Definition J1 (m0 : cache) (hps : list str) (st : lstate) : Prop :=
+    forall h c, lookup h (l_cache st) = Some c ->
+      lookup h m0 = Some c \/
+      exists i t, for_host hps i h /\ nth_error (l_threads st) i = Some (PDone (Ok c) t).
+
+  (* a host without an entry has a caller that is about to store one, or nobody has started *)
+  Definition J2 (hps : list str) (st : lstate) : Prop :=
+    forall h, creatable h = true -> lookup h (l_cache st) = None ->
+      pending st h \/
+      (forall i hp port, nth_error hps i = Some hp -> split_host_port hp = Some (h, port) ->
+                         nth_error (l_threads st) i = Some (PStart hp)).
+
+  Lemma pending_pc_not_start h hp : ~ pending_pc h (PStart hp).
+  Proof. intros [H|[H|[c H]]]; discriminate. Qed.
+
+  Lemma pending_pc_not_done h r t : ~ pending_pc h (PDone r t).
+  Proof. intros [H|[H|[c H]]]; discriminate. Qed.
+
+  Lemma lstep_J m0 hps st a :
+    linv hps st -> J1 m0 hps st -> J2 hps st ->
+    J1 m0 hps (lstep st a) /\ J2 hps (lstep st a).
+  Proof.
+    intros [Hc Ht] H1 H2. destruct a as [j dt]. unfold lstep.
+    set (now := l_now st + Z.max 0 dt).
+    destruct (nth_error (l_threads st) j) as [p|] eqn:En.
+    2:{ split; [exact H1|exact H2]. }
+    destruct (Forall2_nth_r _ _ _ _ _ Ht En) as (hpj & Hhpj & Hpj).
+    assert (Hlen : (j < length (l_threads st))%nat) by (apply nth_error_Some; congruence).
+    (* helpers to transport witnesses that are not the acting thread *)
+    assert (Keep : forall p' i q, nth_error (l_threads st) i = Some q -> i <> j ->
+                   nth_error (upd j p' (l_threads st)) i = Some q).
+    { intros p' i q Hq Hij. rewrite nth_error_upd_other by congruence. assumption. }
+    destruct p as [hp'|h0|h0|h0 c0|r t]; simpl in Hpj; cbn [pc_step].
+    - (* PStart: certs.Get *)
+      subst hp'.
+      assert (Common : forall p', ~ (exists r t, p' = PDone r t) \/ True ->
+        (forall h, split_host_port hpj = None \/ (exists h' port, split_host_port hpj = Some (h', port) /\
+             (h' = h -> pending_pc h p' \/ lookup h (l_cache st) <> None))) ->
+        J1 m0 hps {| l_now := now; l_cache := l_cache st; l_next := l_next st; l_threads := upd j p' (l_threads st) |} /\
+        J2 hps {| l_now := now; l_cache := l_cache st; l_next := l_next st; l_threads := upd j p' (l_threads st) |}).
+      { intros p' _ Hp'. split.
+        - intros h c Hl. cbn [l_cache l_threads] in *. destruct (H1 h c Hl) as [A|(i & t & Hf & Hi)]; [left; exact A|].
+          right. exists i, t. split; [assumption|]. apply Keep; [assumption|]. intros ->. congruence.
+        - intros h Hcr Hl. cbn [l_cache l_threads] in *. destruct (H2 h Hcr Hl) as [(i & q & Hi & Hq)|Hall].
+          + left. exists i, q. split; [|assumption]. apply Keep; [assumption|].
+            intros ->. rewrite En in Hi. inversion Hi; subst. eapply pending_pc_not_start; eauto.
+          + destruct (Hp' h) as [Hnone|(h' & port & Hs & Himp)].
+            * right. intros i hp port Hhp Hsp. destruct (Nat.eq_dec i j) as [->|Hij].
+              -- rewrite Hhpj in Hhp. inversion Hhp; subst. congruence.
+              -- apply Keep; [eapply Hall; eauto|assumption].
+            * destruct (list_eq_dec Z.eq_dec h' h) as [->|Hne].
+              -- destruct (Himp eq_refl) as [Hpend|Hno]; [|congruence].
+                 left. exists j, p'. split; [apply nth_error_upd_same; assumption|assumption].
+              -- right. intros i hp port' Hhp Hsp. destruct (Nat.eq_dec i j) as [->|Hij].
+                 ++ rewrite Hhpj in Hhp. inversion Hhp; subst. rewrite Hs in Hsp. inversion Hsp. congruence.
+                 ++ apply Keep; [eapply Hall; eauto|assumption]. }
+      destruct (split_host_port hpj) as [[h port]|] eqn:Es.
+      + destruct (lookup h (l_cache st)) as [c|] eqn:El.
+        * destruct (expired now c); apply Common; auto; intros h1; right; exists h, port;
+            (split; [reflexivity|]); intros ->; right; congruence.
+        * apply Common; auto. intros h1. right. exists h, port. split; [reflexivity|].
+          intros ->. left. right. left. reflexivity.
+      + apply Common; auto.
+    - (* PDelete: certs.Delete *)
+      destruct Hpj as [portj Hsj]. split.
+      + intros h c Hl. cbn [l_cache l_threads] in *.
+        destruct (list_eq_dec Z.eq_dec h0 h) as [->|Hne]; [rewrite lookup_remove_same in Hl; discriminate|].
+        rewrite lookup_remove_other in Hl by assumption.
+        destruct (H1 h c Hl) as [A|(i & t & Hf & Hi)]; [left; exact A|].
+        right. exists i, t. split; [assumption|]. apply Keep; [assumption|]. intros ->. congruence.
+      + intros h Hcr Hl. cbn [l_cache l_threads] in *.
+        destruct (list_eq_dec Z.eq_dec h0 h) as [->|Hne].
+        * left. exists j, (PCreate h). split; [apply nth_error_upd_same; assumption|]. right. left. reflexivity.
+        * rewrite lookup_remove_other in Hl by assumption.
+          destruct (H2 h Hcr Hl) as [(i & q & Hi & Hq)|Hall].
+          -- left. exists i, q. split; [|assumption]. apply Keep; [assumption|].
+             intros ->. rewrite En in Hi. inversion Hi; subst.
+             destruct Hq as [Hq|[Hq|[c Hq]]]; inversion Hq; congruence.
+          -- right. intros i hp port Hhp Hsp. destruct (Nat.eq_dec i j) as [->|Hij].
+             ++ rewrite Hhpj in Hhp. inversion Hhp; subst. rewrite Hsj in Hsp. inversion Hsp. congruence.
+             ++ apply Keep; [eapply Hall; eauto|assumption].
+    - (* PCreate: createCert *)
+      destruct Hpj as [portj Hsj].
+      assert (Common : forall p' n', (creatable h0 = true -> pending_pc h0 p') ->
+        J1 m0 hps {| l_now := now; l_cache := l_cache st; l_next := n'; l_threads := upd j p' (l_threads st) |} /\
+        J2 hps {| l_now := now; l_cache := l_cache st; l_next := n'; l_threads := upd j p' (l_threads st) |}).
+      { intros p' n' Hp'. split.
+        - intros h c Hl. cbn [l_cache l_threads] in *. destruct (H1 h c Hl) as [A|(i & t & Hf & Hi)]; [left; exact A|].
+          right. exists i, t. split; [assumption|]. apply Keep; [assumption|]. intros ->. congruence.
+        - intros h Hcr Hl. cbn [l_cache l_threads] in *.
+          destruct (list_eq_dec Z.eq_dec h0 h) as [->|Hne].
+          + left. exists j, p'. split; [apply nth_error_upd_same; assumption|auto].
+          + destruct (H2 h Hcr Hl) as [(i & q & Hi & Hq)|Hall].
+            * left. exists i, q. split; [|assumption]. apply Keep; [assumption|].
+              intros ->. rewrite En in Hi. inversion Hi; subst.
+              destruct Hq as [Hq|[Hq|[c Hq]]]; inversion Hq; congruence.
+            * right. intros i hp port Hhp Hsp. destruct (Nat.eq_dec i j) as [->|Hij].
+              -- rewrite Hhpj in Hhp. inversion Hhp; subst. rewrite Hsj in Hsp. inversion Hsp. congruence.
+              -- apply Keep; [eapply Hall; eauto|assumption]. }
+      destruct (creatable h0) eqn:Ecr; apply Common.
+      * intros _. right. right. eexists. reflexivity.
+      * intros; discriminate.
+    - (* PSet: certs.Set, return *)
+      destruct Hpj as [[portj Hsj] Hej]. split.
+      + intros h c Hl. cbn [l_cache l_threads] in *.
+        destruct (list_eq_dec Z.eq_dec h0 h) as [->|Hne].
+        * rewrite lookup_set_same in Hl. inversion Hl; subst c0. right. exists j, (c_nb c).
+          split; [exists hpj, portj; auto|apply nth_error_upd_same; assumption].
+        * rewrite lookup_set_other in Hl by assumption.
+          destruct (H1 h c Hl) as [A|(i & t & Hf & Hi)]; [left; exact A|].
+          right. exists i, t. split; [assumption|]. apply Keep; [assumption|]. intros ->. congruence.
+      + intros h Hcr Hl. cbn [l_cache l_threads] in *.
+        destruct (list_eq_dec Z.eq_dec h0 h) as [->|Hne]; [rewrite lookup_set_same in Hl; discriminate|].
+        rewrite lookup_set_other in Hl by assumption.
+        destruct (H2 h Hcr Hl) as [(i & q & Hi & Hq)|Hall].
+        * left. exists i, q. split; [|assumption]. apply Keep; [assumption|].
+          intros ->. rewrite En in Hi. inversion Hi; subst.
+          destruct Hq as [Hq|[Hq|[c Hq]]]; inversion Hq; congruence.
+        * right. intros i hp port Hhp Hsp. destruct (Nat.eq_dec i j) as [->|Hij].
+          -- rewrite Hhpj in Hhp. inversion Hhp; subst. rewrite Hsj in Hsp. inversion Hsp. congruence.
+          -- apply Keep; [eapply Hall; eauto|assumption].
+    - (* PDone: nothing left to do *)
+      assert (Eu : upd j (PDone r t) (l_threads st) = l_threads st).
+      { clear -En. revert j En. induction (l_threads st) as [|y l IH]; intros [|j] En; simpl in *; try discriminate.
+        - inversion En. reflexivity.
+        - f_equal. apply IH. assumption. }
+      rewrite Eu. split; [exact H1|exact H2].
+  Qed.
+
+  Lemma lrun_J m0 hps sched st :
+    linv hps st -> J1 m0 hps st -> J2 hps st ->
+    J1 m0 hps (lrun sched st) /\ J2 hps (lrun sched st).
+  Proof.
+    revert st. induction sched as [|a sched IH]; intros st Hi H1 H2; simpl; [auto|].
+    destruct (lstep_J m0 hps st a Hi H1 H2) as [A B].
+    destruct (lstep_inv hps st a Hi) as (Hi' & _).
+    apply IH; assumption.
+  Qed.
+
+  Lemma linit_J s hps : J1 (s_cache s) hps (linit s hps) /\ J2 hps (linit s hps).
+  Proof.
+    split.
+    - intros h c Hl. left. exact Hl.
+    - intros h _ _. right. intros i hp port Hhp _. simpl.
+      rewrite nth_error_map, Hhp. reflexivity.
+  Qed.
+
+  (* Whatever the interleaving: once every caller has returned, every host that was asked for
+     (and can be named in a certificate) has a cached certificate, and that certificate was
+     handed to one of the callers for this host, or is the one cached before they started. *)
+  Theorem concurrent_cache_holds_one ops hps sched i hp h port :
+    let s0 := run ops init in
+    let st := lrun sched (linit s0 hps) in
+    all_done st = true ->
+    nth_error hps i = Some hp -> split_host_port hp = Some (h, port) -> creatable h = true ->
+    exists c, lookup h (l_cache st) = Some c /\
+      (lookup h (s_cache s0) = Some c \/
+       exists i' t, for_host hps i' h /\ nth_error (l_threads st) i' = Some (PDone (Ok c) t)).
+  Proof.
+    intros s0 st Hdone Hhp Hs Hcr.
+    destruct (run_ok ops init init_ok) as (Hok & _). fold s0 in Hok.
+    pose proof (linit_inv s0 hps Hok) as Hi.
+    destruct (linit_J s0 hps) as [A B].
+    destruct (lrun_J (s_cache s0) hps sched _ Hi A B) as [H1 H2]. fold st in H1, H2.
+    destruct (lrun_inv hps sched _ Hi) as ([_ Ht] & _). fold st in Ht.
+    unfold all_done in Hdone. rewrite forallb_forall in Hdone.
+    destruct (lookup h (l_cache st)) as [c|] eqn:El.
+    - exists c. split; [reflexivity|]. apply H1. assumption.
+    - exfalso. destruct (H2 h Hcr El) as [(i' & q & Hq & Hp)|Hall].
+      + apply nth_error_In in Hq. apply Hdone in Hq.
+        destruct Hp as [->|[->|[c ->]]]; discriminate.
+      + pose proof (Hall i hp port Hhp Hs) as Hq.
+        apply nth_error_In in Hq. apply Hdone in Hq. discriminate.
+  Qed.
+
+  (* first requests: the host had no certificate before; the cache ends with one the callers got *)
+  Theorem concurrent_first_requests ops hps sched i hp h port :
+    let s0 := run ops init in
+    let st := lrun sched (linit s0 hps) in
+    all_done st = true ->
+    nth_error hps i = Some hp -> split_host_port hp = Some (h, port) -> creatable h = true ->
+    lookup h (s_cache s0) = None ->
+    exists c i' t, lookup h (l_cache st) = Some c /\ for_host hps i' h /\
+                   nth_error (l_threads st) i' = Some (PDone (Ok c) t).
+  Proof.
+    intros s0 st Hdone Hhp Hs Hcr Hnone.
+    destruct (concurrent_cache_holds_one ops hps sched i hp h port Hdone Hhp Hs Hcr) as (c & Hl & [Hm|(i' & t & Hf & Hp)]).
+    - fold s0 in Hm. congruence.
+    - exists c, i', t. auto.
+  Qed.
+
+  (* a caller running alone is exactly the sequential function *)
+  Theorem solo_refines_get_cert hp s :
+    let st := lrun [(O, 0); (O, 0); (O, 0); (O, 0)] (linit s [hp]) in
+    exists t, l_threads st = [PDone (snd (get_cert hp s)) t] /\
+              l_cache st = s_cache (fst (get_cert hp s)) /\ l_next st = s_next (fst (get_cert hp s)).
+  Proof.
+    unfold get_cert, fresh. simpl. rewrite !Z.add_0_r.
+    destruct (split_host_port hp) as [[h port]|]; simpl.
+    - destruct (lookup h (s_cache s)) as [c|]; simpl.
+      + destruct (expired (s_now s) c); simpl.
+        * destruct (creatable h); simpl; eexists; repeat split.
+        * eexists; repeat split.
+      + destruct (creatable h); simpl; eexists; repeat split.
+    - eexists; repeat split.
+  Qed.
+
 End WithParseIP.
